@@ -65,7 +65,7 @@ def mutate(rng, cs, other, is_bytes):
 
 
 def generate(rng, tier):
-    per = 150 if tier == "quick" else 1500
+    per = 300 if tier == "quick" else 1500
     nfuzz = 2500 if tier == "quick" else 60000
     base = []
     for name in OTHERS:
@@ -106,6 +106,14 @@ def generate(rng, tier):
     big = "9" * 40
     cases.append(Case("pat.match", [enc("p>=" + big), enc("p-" + big + "nb" + big)], meta={"nt": True, "src": "big"}))
     cases.append(Case("sum.parse", [enc("SIZE_PKG=" + big + "\n")], meta={"nt": True, "src": "big"}))
+    # extreme components next to negative ones: differences and sums of components must not overflow
+    for pat, nm in (("foo>=alpha", "foo-" + "9" * 20), ("p>1.rc1", "p-1." + "9" * 20), ("p<1." + "9" * 20, "p-1.beta"), ("p>=1.0pre", "p-1.0." + "9" * 30),
+                    ("p<=9223372036854775807", "p-alpha"), ("p>9223372036854775806rc", "p-9223372036854775807alpha"), ("p>=1nb" + "9" * 20, "p-1nb" + "9" * 19),
+                    ("p-[0-9]*", "p-" + "9" * 20)):
+        cases.append(Case("pat.match", [enc(pat), enc(nm)], meta={"nt": True, "src": "big"}))
+        cases.append(Case("dewey.match", [enc(pat), enc(nm)], meta={"nt": True, "src": "big"}))
+    cases.append(Case("pat.best", [enc("p-[0-9]*"), enc("p-" + "9" * 20), enc("p-alpha")], meta={"nt": True, "src": "big"}))
+    cases.append(Case("pat.best", [enc("p-[0-9]*"), enc("p-1.rc"), enc("p-1." + "9" * 25)], meta={"nt": True, "src": "big"}))
     cases.append(Case("pat.match", [enc("p<3" + "0" * 65536 + "rc1"), enc("p-3" + "1" * 65536)], mop="", meta={"nt": True, "src": "big"}))
     cases.append(Case("pat.match", [enc("p<3" + "0" * 4000 + "rc1"), enc("p-3" + "1" * 4000)], meta={"nt": True, "src": "big"}))
     cases.append(Case("pl.parse", [enc(b"@name " + b"x" * 70000 + b"\n" + b" " * 70000)], meta={"nt": True, "src": "big"}))
